@@ -541,6 +541,7 @@ def drive(prop, tier, scopes, invariants, replay_fn, acts_fn, quick_limit, act_k
     failing = {}      # (scope, pkey, akey) -> {clause: failure record}
     done = set()
     counts = {}
+    by_action = {}
     nacts = nprogs = 0
     changed_progs = set()
     samples = []
@@ -556,6 +557,9 @@ def drive(prop, tier, scopes, invariants, replay_fn, acts_fn, quick_limit, act_k
             nacts += r["n_actions"]
             for k, v in r["counts"].items():
                 counts[k] = counts.get(k, 0) + v
+            for a, d in (r.get("by_action") or {}).items():
+                for k, v in d.items():
+                    by_action.setdefault(a, {})[k] = by_action.setdefault(a, {}).get(k, 0) + v
             if r["counts"].get("changed"):
                 changed_progs.add((r["scope"], r["pkey"]))
             for ak in r["akeys"]:
@@ -603,6 +607,9 @@ def drive(prop, tier, scopes, invariants, replay_fn, acts_fn, quick_limit, act_k
     if nacts and counts.get("changed", 0) < nacts * 0.05:
         verdict.machinery_failure("vacuous: rope changed something in only %d of %d requests" % (
             counts.get("changed", 0), nacts))
+    for a in sorted(set().union(*[c["Actions"] for _, c in todo])) if todo else []:
+        if not by_action.get(a, {}).get("changed"):
+            verdict.machinery_failure("vacuous: no request of action %s changed anything" % a)
     if nprogs < planned * 0.98:
         verdict.machinery_failure("only %d of %d planned programs were replayed" % (nprogs, planned))
     for msg in verdict.machinery[:5]:
@@ -620,6 +627,7 @@ def drive(prop, tier, scopes, invariants, replay_fn, acts_fn, quick_limit, act_k
         "distinct_nontrivial": len(changed_progs),
         "rule": rule,
         "requests_by_outcome": counts,
+        "requests_by_action": by_action,
         "failing_requests": len(failing), "minimal_cores": len(cores),
         "tlc": tlc_stats,
         "known_finding_hits": verdict.known_hits,
